@@ -619,9 +619,17 @@ fn main() {
     }
     // one line over a two-byte letter in both cases, a ligature that NFKC rewrites to two letters,
     // and a digit (neither letter nor punctuation: n-grams around it are not counted)
-    for l in strings(&WIDE_ALPHA, run.pick(3, 3)) {
+    for l in strings(&WIDE_ALPHA, run.pick(2, 3)) {
         if l.chars().any(|c| !c.is_ascii() || c.is_ascii_digit()) {
             sets.push(vec![vec![l]]);
+        }
+    }
+    // quick: of the 3-symbol lines only those with the spacing accent between two other symbols
+    if run.quick() {
+        for a in WIDE_ALPHA {
+            for b in WIDE_ALPHA {
+                sets.push(vec![vec![format!("{a}\u{b4}{b}")]]);
+            }
         }
     }
     let two = strings(&ALPHA, two_max);
@@ -641,6 +649,7 @@ fn main() {
     // units: per file set one unit with the whole finite-max_size grid, then one unit per
     // max_size=None case
     let per_set = 1 + MAX_SEQS.len() * MODES.len();
+    let quick = run.quick();
     let cases_of = |unit: usize| -> Vec<Case> {
         let files = &sets[unit / per_set];
         let k = unit % per_set;
@@ -657,9 +666,13 @@ fn main() {
             }
             // the other ways of writing the same lines to the files, with the largest finite max_size
             // the extremes of the two limits ("no limit" spelled as the largest value)
+            // (quick: the extremes and the line-termination patterns with 0 and 2 threads only)
+            let few: Vec<u8> = if quick { vec![0, 2] } else { THREADS.to_vec() };
             for (ms, mq) in [(Some(usize::MAX), None), (Some(2), Some(usize::MAX)), (Some(usize::MAX), Some(usize::MAX))] {
                 for mode in MODES {
-                    v.push(mk(ms, mq, mode));
+                    let mut c = mk(ms, mq, mode);
+                    c.threads = few.clone();
+                    v.push(c);
                 }
             }
             for term in term_patterns(files) {
@@ -667,6 +680,7 @@ fn main() {
                     for mode in MODES {
                         let mut c = mk(Some(10), mq, mode);
                         c.term = term.clone();
+                        c.threads = few.clone();
                         v.push(c);
                     }
                 }
@@ -708,8 +722,8 @@ fn main() {
     run.bounds.insert(
         "file_sets_rule".into(),
         json!(format!(
-            "1 line of at most {one_max} symbols; 1 line of at most 3 symbols over {CLUSTER_ALPHA:?} with the cluster; 1 line of at most {} symbols over {WIDE_ALPHA:?} with a non-ASCII symbol or the digit; 2 lines of at most {two_max} symbols each; 3 lines of at most 1 symbol each over {three_alpha:?}; lines cut into consecutive non-empty files in every way",
-            run.pick(3, 3)
+            "1 line of at most {one_max} symbols; 1 line of at most 3 symbols over {CLUSTER_ALPHA:?} with the cluster; 1 line of at most {} symbols over {WIDE_ALPHA:?} with a non-ASCII symbol or the digit; 2 lines of at most {two_max} symbols each; 3 lines of at most 1 symbol each over {three_alpha:?}; (quick: 2 symbols, plus the 3-symbol lines with U+00B4 in the middle); lines cut into consecutive non-empty files in every way",
+            run.pick(2, 3)
         )),
     );
     run.bounds.insert("max_size".into(), json!(MAX_SIZES.iter().map(|o| opt_json(*o)).collect::<Vec<_>>()));
